@@ -38,6 +38,12 @@ DecodeOK(e) ==
        /\ e.reser_ok /\ e.id2 = e.id
        /\ DocLayout(e.cell, e.id)
 
+\* "every ID returned by any API call is in this canonical form" -- also when the argument was not: a decodable alias is
+\* either rejected or treated as the cell it aliases, and nothing non-canonical comes back
+CanonOutOK(e) ==
+  /\ e.outcome \in {"ok", "err"}
+  /\ \A k \in 1..Len(e.outs) : IsQuads(e.outs[k]) /\ Canonical(e.outs[k])
+
 HexFmtOK(e) ==
   /\ IsQuads(e.id)
   /\ e.str = HexFmt(e.id)                    \* 1..16 lower-case digits, no prefix, no leading zeros
@@ -383,7 +389,7 @@ PayloadOK(e) ==
             /\ (alias /\ e.canon_ok) => e.same_as_canon
        [] e.fn = "uncompact" -> \A i \in 1..Len(e.out) : IsCanonRes(e.out[i], e.r)
        [] e.fn = "compact" ->
-            \A i \in 1..Len(e.out) : (\E k \in 1..Len(e.ids) : e.ids[k] = e.out[i]) \/ Canonical(e.out[i])
+            \A i \in 1..Len(e.out) : Canonical(e.out[i])     \* (before the repair of compact: or an input passed through)
        [] e.fn \in {"cell_area", "get_num_cells"} -> e.finite
        [] OTHER -> TRUE
 
